@@ -296,9 +296,9 @@ def abstract_fields_for_props():
     return res
 
 
-def enum_programs(fields, maxlen, name):
+def enum_programs(fields, maxlen, name, workers=None):
     """-> list of (lvl, field key, (codes...)) printed by TLC, and TLC stats."""
-    out = run_mc("enum", fields, maxlen, name)
+    out = run_mc("enum", fields, maxlen, name, workers)
     progs = set()
     for raw in tlc.parse_tuples(out, "CASE"):
         v = tlc.tla_value(raw)
@@ -314,7 +314,8 @@ _MISSING = object()
 
 def run_program(job):
     """job = (id, lvl, field key, codes, offset, lax) -> case dict for TraceFields + values."""
-    cid, lvl, key, codes, offset, lax = job
+    cid, lvl, key, codes, offset, lax = job[:6]
+    force = list(job[6]) if len(job) > 6 else []      # explicit value descriptors for the Sets, in order
     gfapy = _load_gfapy()
     fd = field_by_key(key)
     f = fd["name"]
@@ -332,7 +333,7 @@ def run_program(job):
             reps = fd["classes"][cls]
             if lax and cls == "wrongsyntax" and key in LAX:
                 reps = LAX[key]
-            val = reps[(offset + nset) % len(reps)]
+            val = force[nset] if nset < len(force) else reps[(offset + nset) % len(reps)]
             nset += 1
             v = mk(val)
             old = line._data.get(f, _MISSING)
@@ -441,10 +442,15 @@ def check_programs(out, tier, seed, fields=None, maxlen=None):
     fields = fields or FIELDS
     maxlen = maxlen or (3 if tier == "quick" else 4)
     # the statements on the specification itself
-    o1 = run_mc("props", abstract_fields_for_props(), 3 if tier == "quick" else 4, "fields-mc-props")
-    o2 = run_mc("equiv", abstract_fields_for_props(), 3 if tier == "quick" else 4, "fields-mc-equiv")
-    s1, s2 = tlc.stats(o1), tlc.stats(o2)
-    progs, s3 = enum_programs(fields, maxlen, "fields-mc-enum")
+    from concurrent.futures import ThreadPoolExecutor
+    d = 3 if tier == "quick" else 4
+    w = max(2, NCPU // 3)
+    with ThreadPoolExecutor(max_workers=3) as ex:
+        f1 = ex.submit(run_mc, "props", abstract_fields_for_props(), d, "fields-mc-props", w)
+        f2 = ex.submit(run_mc, "equiv", abstract_fields_for_props(), d, "fields-mc-equiv", w)
+        f3 = ex.submit(enum_programs, fields, maxlen, "fields-mc-enum", w)
+        s1, s2 = tlc.stats(f1.result()), tlc.stats(f2.result())
+        progs, s3 = f3.result()
     out.add_cov(states=s1[1] + s2[1] + s3[1], transitions=s1[0] + s2[0] + s3[0],
                 spec_states_statements=s1[1], spec_states_equivalence=s2[1], programs_enumerated=len(progs),
                 program_depth=maxlen, fields=len(fields))
@@ -480,6 +486,23 @@ def check_programs(out, tier, seed, fields=None, maxlen=None):
                                 "observed": [[e["res"], e["mark"], e["kept"]] for e in c["ev"]]})
     out.add_cov(traces_validated_against_impl=ncases, program_cases=ncases,
                 programs_nontrivial=len(nontrivial))
+    # try to show each group by its two-call core: the assignment, then the rejected call
+    mini = []
+    for key, g in sorted(groups.items()):
+        last = json.loads(key[2])
+        if last is not None and key[3] != "set":
+            mini.append((len(mini), min(g["levels"]), key[1], ("set." + last[0], key[3]), 0, False, [last[1]]))
+            g["mini"] = len(mini) - 1
+        elif last is not None:
+            mini.append((len(mini), min(g["levels"]), key[1], ("set." + last[0],), 0, False, [last[1]]))
+            g["mini"] = len(mini) - 1
+    if mini:
+        mres = _pmap(run_program, mini)
+        mrej, _ = validate_cases("prog", [r[0] for r in mres], "fields-prog-mini")
+        for key, g in groups.items():
+            i = g.get("mini")
+            if i is not None and i in mrej and ",".join(mrej[i][0]) == key[0]:
+                g["ex"] = (mini[i], mres[i][0], mres[i][1], mrej[i][0], mrej[i][1])
     for key, g in sorted(groups.items()):
         job, c, vals, clauses, at = g["ex"]
         fd = field_by_key(c["f"])
@@ -492,9 +515,11 @@ def check_programs(out, tier, seed, fields=None, maxlen=None):
             family=FAM, kind="prog", clauses=list(clauses),
             input="line=%r field=%s set=%s then=%s" % (fd["line"], fd["name"], json.dumps(last), key[3]),
             api="Line.set/get/field_to_s/str/validate", levels=sorted(g["levels"]), occurrences=g["n"],
-            program=dict(lvl=job[1], key=job[2], codes=list(job[3]), offset=job[4], lax=job[5]),
+            program=dict(lvl=job[1], key=job[2], codes=list(job[3]), offset=job[4], lax=job[5],
+                         force=list(job[6]) if len(job) > 6 else []),
             rejected_call=at, calls=calls,
-            what="%s: %s at vlevel %s; %d programs" % (",".join(clauses), "; ".join(calls), sorted(g["levels"]), g["n"])))
+            what="%s: %s.%s of %r: %s at vlevel %s; %d programs" % (
+                ",".join(clauses), fd["dt"], fd["name"], fd["line"], "; ".join(calls), sorted(g["levels"]), g["n"])))
     return ncases
 
 
@@ -1236,7 +1261,8 @@ def replay(prop, v, path):
     kind = v.get("kind")
     if kind == "prog":
         p = v["program"]
-        case, vals = run_program((0, p["lvl"], p["key"], tuple(p["codes"]), p["offset"], p["lax"]))
+        case, vals = run_program((0, p["lvl"], p["key"], tuple(p["codes"]), p["offset"], p["lax"],
+                                  p.get("force", [])))
         for e, (val, exc) in zip(case["ev"], vals):
             print("  %-8s %-12s %s -> %s%s%s" % (e["k"], e["c"], json.dumps(val) if val else "", e["res"],
                                                " (" + exc + ")" if exc else "", " [# INVALID]" if e["mark"] else ""))
